@@ -411,9 +411,11 @@ ChildPlan World::OnSpawn(Kernel& kk, const std::string& cmd, bool console) {
       if (sv.regen && outs[i] == "build.ninja") {
         if (self->has_pending) { self->sc = self->pending; self->has_pending = false; }
         content = self->sc.ManifestText();
-        if (self->sc.subninja) k2.WriteFile("sub.ninja", self->sc.SubManifestText());
+        bool declared = std::find(outs.begin(), outs.end(), std::string("sub.ninja")) != outs.end();
+        if (self->sc.subninja && !declared) k2.WriteFile("sub.ninja", self->sc.SubManifestText());
         self->stats->n["manifest_regenerated"]++;
       }
+      if (sv.regen && outs[i] == "sub.ninja") content = self->sc.SubManifestText();
       if (partial || status != 0) {
         if (partial && i > 0) break;
         // (a dyndep file is replaced atomically or not at all: garbage in it, trusted
@@ -424,7 +426,7 @@ ChildPlan World::OnSpawn(Kernel& kk, const std::string& cmd, bool console) {
       std::string have;
       bool exists = k2.ReadFile(outs[i], &have);
       // a restat command (by its rule or by its dyndep file) leaves an unchanged output alone
-      if (restat && exists && have == content && status == 0 && !partial) { self->stats->n["restat_untouched"]++; continue; }
+      if (restat && exists && have == content && status == 0 && !partial) { self->stats->n["restat_untouched"]++; if (sv.regen && outs[i] == "build.ninja") self->stats->n["regen_left_build_ninja_alone"]++; continue; }
       k2.MkdirP(Dirname(outs[i]).empty() ? "/w" : Dirname(outs[i]));
       k2.WriteFile(outs[i], content);
       k2.Trace(Ev::kChildEffect, c.pid, sv.id, outs[i]);
